@@ -64,6 +64,22 @@ def run(p):
             back = C.llh2xyz(*q, ell)
             d = math.dist(back, (x, y, z))
             p.check(d <= 2e-5, 'xyz2llh-roundtrip', 'roundtrip_direct', [x, y, z, ell.semimaj, ell.inversef], d, '<= 2e-5 m')
+    # points close to the rotation axis (off it): the height must not be computed by dividing vanishing quantities
+    # (defect repaired by 37d358f: a point 1 m from the axis converted back 4.5 mm away)
+    for _ in range(p.n(400, 8000)):
+        ell = gens.ellipsoid(rng)
+        dist = 10 ** rng.uniform(-3, 4)
+        th = rng.uniform(0, 2 * math.pi)
+        h = rng.uniform(-1e4, 4e7) if rng.random() < 0.3 else rng.uniform(-1e4, 1e4)
+        b = ell.semimaj * (1 - 1 / ell.inversef)
+        x, y, z = dist * math.cos(th), dist * math.sin(th), rng.choice([-1, 1]) * (b + h)
+        p.case('roundtrip_near_axis', [x, y, z])
+        ok, q = p.guarded('xyz2llh-raises', 'roundtrip_near_axis', [x, y, z], lambda: C.xyz2llh(x, y, z, ell))
+        if ok:
+            back = C.llh2xyz(*q, ell)
+            d = math.dist(back, (x, y, z))
+            p.check(d <= 2e-5, 'xyz2llh-roundtrip:near-axis', 'roundtrip_near_axis', [x, y, z, ell.semimaj, ell.inversef], d, '<= 2e-5 m',
+                    f'xyz2llh({x!r}, {y!r}, {z!r}, Ellipsoid({ell.semimaj!r}, {ell.inversef!r}))')
     # angle-object arguments give the decimal-degree result
     for _ in range(p.n(300, 5000)):
         lat, lon = rng.uniform(-90, 90), rng.uniform(-180, 180)
